@@ -746,6 +746,101 @@ def r12_defval_decision_table(chk):
             "%s[1:-1] == ''" % dv, "%s[0][0] != 'OctetString'" % tv], where(mod, x), 'guard %s' % t)
 
 
+
+def r6_constraints_macro(chk):
+    """pysnmp template, constraints() macro: each branch renders its own constraint class with (min, max) in that
+    order - in every arm of the loop (single / first / middle / last element)"""
+    import re as _re
+    from jinja2 import nodes as jn
+    from vt.tmpl import TemplateModel, path_of
+    tm = TemplateModel(chk.repo, 'pysmi/codegen/templates/pysnmp/mib-definitions.j2')
+    chk.unit(tm.rel)
+    chk.doc('C05.R6', 'constraints() macro: under `"range" in spec` every constraint constructor rendered is '
+                      'ValueRangeConstraint(<item>.min, <item>.max) over spec.range, under `"size" in spec` '
+                      'ValueSizeConstraint(<item>.min, <item>.max) over spec.size, under `"enumeration" in spec` '
+                      'SingleValueConstraint over the numbers and NamedValues over (label, number) pairs - in every arm '
+                      'of the loops that render them')
+    mac = tm.macro('constraints')
+    if mac is None:
+        raise AnalysisError('subject missing: macro constraints() in %s' % tm.rel)
+    spec = mac.args[-1].name if mac.args else 'spec'
+
+    def linear(nodes_):
+        out = []
+        for n in nodes_:
+            if isinstance(n, jn.Output):
+                for x in n.nodes:
+                    if isinstance(x, jn.TemplateData):
+                        out.append(x.data)
+                    else:
+                        cur = x
+                        while isinstance(cur, jn.Filter):
+                            cur = cur.node
+                        keys = []
+                        while isinstance(cur, jn.Getitem) and isinstance(cur.arg, jn.Const):
+                            keys.append(str(cur.arg.value))
+                            cur = cur.node
+                        root = cur.name if isinstance(cur, jn.Name) else '?'
+                        out.append('<%s>' % '.'.join([root] + list(reversed(keys))))
+            elif isinstance(n, jn.If):
+                out += linear(n.body)
+                for e in n.elif_:
+                    out += linear(e.body)
+                out += linear(n.else_)
+            elif isinstance(n, jn.For):
+                out += linear(n.body)
+            elif hasattr(n, 'body') and isinstance(getattr(n, 'body'), list):
+                out += linear(n.body)
+        return out
+
+    def branches(ifn):
+        yield ifn.test, ifn.body
+        for e in ifn.elif_:
+            yield e.test, e.body
+    top = [n for n in mac.body if isinstance(n, jn.If)]
+    seen = {}
+    for ifn in top:
+        for test, body in branches(ifn):
+            key = None
+            if isinstance(test, jn.Compare) and isinstance(test.expr, jn.Const) and test.ops and test.ops[0].op == 'in' \
+                    and isinstance(test.ops[0].expr, jn.Name) and test.ops[0].expr.name == spec:
+                key = test.expr.value
+            if key is None:
+                continue
+            seen[key] = (body, test)
+    want = {'range': 'ValueRangeConstraint', 'size': 'ValueSizeConstraint'}
+    for key, cls in sorted(want.items()):
+        if key not in seen:
+            chk.ob('C05.R6', 'constraints/%s branch' % key, False, tm.rel, 'no `"%s" in %s` branch' % (key, spec))
+            continue
+        body, test = seen[key]
+        loops = [f for n in body for f in ([n] if isinstance(n, jn.For) else n.find_all(jn.For))]
+        okloop = len(loops) == 1 and path_of(loops[0].iter, spec) == (key,) and isinstance(loops[0].target, jn.Name)
+        chk.ob('C05.R6', 'constraints/%s loop' % key, okloop, '%s:%s' % (tm.rel, test.lineno),
+               'the branch must loop once over %s["%s"]' % (spec, key))
+        if not okloop:
+            continue
+        item = loops[0].target.name
+        text = ''.join(linear(body))
+        names = _re.findall(r'\b([A-Za-z]+Constraint)\(', text)
+        full = _re.findall(r'\b%s\(<%s\.min>,\s*<%s\.max>\)' % (cls, item, item), text)
+        others = [x for x in names if x != cls]
+        chk.ob('C05.R6', 'constraints/%s renders %s(min, max)' % (key, cls), bool(full) and not others and
+               len(full) == len(names), '%s:%s' % (tm.rel, test.lineno),
+               'constructors rendered in this branch: %s; %d of them are %s(<%s.min>, <%s.max>)' % (
+                   sorted(set(names)), len(full), cls, item, item))
+    if 'enumeration' in seen:
+        body, test = seen['enumeration']
+        text = ''.join(linear(body))
+        names = set(_re.findall(r'\b([A-Za-z]+(?:Constraint|Values))\(', text))
+        chk.ob('C05.R6', 'constraints/enumeration renders SingleValueConstraint + NamedValues',
+               names == set(['SingleValueConstraint', 'NamedValues']), '%s:%s' % (tm.rel, test.lineno),
+               'constructors rendered: %s' % sorted(names))
+    else:
+        chk.ob('C05.R6', 'constraints/enumeration branch', False, tm.rel, 'no enumeration branch')
+    chk.floor('C05.R6', 5, 'three branches of the macro')
+
+
 RULES = [r1_number_classifier, r2_value_alternatives, r3_literal_conversion, r4_ranges, r5_enum_bits,
          r7_base_type_walk, r8_defval, r9_syntax_productions, r10_collectors, r11_guard_slice_agreement,
-         r12_defval_decision_table]
+         r12_defval_decision_table, r6_constraints_macro]
